@@ -1,5 +1,5 @@
 (* Executable entry points of the C06 model and of its specification oracles. *)
-From Verif Require Import Lib.Bytes Json.Ast Json.Parse Event.VerifySig Event.RequiredSpec.
+From Verif Require Import Lib.Bytes Json.Ast Json.Parse Json.Print Event.Redact Event.VerifySig Event.RequiredSpec.
 Open Scope N_scope.
 
 Definition nl : bytes := [10].
@@ -17,6 +17,7 @@ Definition fmt_requests (rs : list request) : bytes :=
   | r :: _ =>
       bs "asked " ++ join_bytes (bs ",") (map hex_of_bytes (needed_set (map r_server rs)))
       ++ bs " ts=" ++ print_dec (r_ts r) ++ (if r_strict r then bs " strict" else bs " lax")
+      ++ bs " msg=" ++ canon_print (r_msg r)
   end.
 
 Definition fmt_set (tag : bytes) (o : option (list bytes)) : bytes :=
@@ -36,12 +37,12 @@ Definition run_verify (args : list bytes) : bytes :=
       | Some j =>
           match read_event j with
           | None => bs "noparse"
-          | Some e =>
-              let valid := fun s => mem_bytes s valids in
+          | Some _ =>
+              let verifier := fun r => mem_bytes (r_server r) valids in
               let verr := negb (bytes_eqb mode (bs "ok")) in
               let l := lookup_of_arg lk in
-              verdict (verify_event ver l e valid verr) ++ nl ++
-              match verify_requests ver l e with
+              verdict (verify_event ver l j verifier verr) ++ nl ++
+              match verify_requests ver l j with
               | None => bs "nocall"
               | Some rs => fmt_requests rs
               end
@@ -62,6 +63,7 @@ Definition spec_observable (ver : bytes) (j : json) (verr : bool) (valid : bytes
   | [] => bs "asked"
   | _ => bs "asked " ++ join_bytes (bs ",") (map hex_of_bytes (needed_set req))
          ++ bs " ts=" ++ print_dec ts ++ (if required_rule_strict ver then bs " strict" else bs " lax")
+         ++ bs " msg=" ++ match redact ver j with Some m => canon_print m | None => bs "?" end
   end.
 
 Definition lookup_consistent (j : json) (lk : bytes) : bool :=
@@ -121,10 +123,10 @@ Definition run_keyring (args : list bytes) : bytes :=
       | Some j =>
           match read_event j with
           | None => bs "noparse"
-          | Some e =>
+          | Some _ =>
               let future := bytes_eqb tsmode (bs "future") in
-              verdict (verify_event ver (lookup_of_arg lk) e
-                         (fun s => fault_valid (strict_validity ver) future (kind_of s script)) false)
+              verdict (verify_event ver (lookup_of_arg lk) j
+                         (fun r => fault_valid (r_strict r) future (kind_of (r_server r) script)) false)
           end
       end
   | _ => bs "badargs"
@@ -168,10 +170,10 @@ Definition run_verify_pseudoid (args : list bytes) : bytes :=
       | Some j, Some k =>
           match read_event j with
           | None => bs "noparse"
-          | Some e =>
+          | Some _ =>
               let (valids, selfs) := take_n (N.to_nat k) rest in
               let verr := negb (bytes_eqb mode (bs "ok")) in
-              match pseudoid_trace ver e (fun s => mem_bytes s valids) (fun s => mem_bytes s selfs) verr with
+              match pseudoid_trace ver j (fun s => mem_bytes s valids) (fun s => mem_bytes s selfs) verr with
               | (v, asked, _) =>
                   verdict v ++ nl ++ fmt_set (bs "mapping") asked
               end
